@@ -164,7 +164,8 @@ def interp_1d_conservative(phi, theta, target_theta_bins):
 
     # flip target_theta_bins if needed (only needed for the conservative method,
     # np.interp handles this by itself)
-    target_diff = np.diff(target_theta_bins)
+    # (as floats: differences of unsigned integers wrap around instead of going negative)
+    target_diff = np.diff(np.asarray(target_theta_bins, dtype=float))
     if all(target_diff < 0):
         flip_switch = True
         target_theta_bins = target_theta_bins[::-1]
@@ -504,7 +505,7 @@ def transform(
 
         # Bins that neither increase nor decrease strictly have no defined answer. Refuse
         # them here: the interpolation below may be lazy and would only fail when computed.
-        target_diff = np.diff(target.values)
+        target_diff = np.diff(np.asarray(target.values, dtype=float))
         if not (all(target_diff < 0) or all(target_diff > 0)):
             raise ValueError("Target values are not monotonic")
 
